@@ -298,8 +298,19 @@ def prop_reuse(case, ctx):
         make = lambda: AStarSearch(tie_breaking_strategy=case["tie"], randomize_action_order=True, seed=case["seed"])
     else:
         make = lambda: BreadthFirstSearch(randomize_action_order=True, seed=case["seed"])
-    check_reuse(ctx, "C05.reuse", make, lambda pl, m: pl.plan_on(m),
-                lambda r, m: None if r is None else {"path": list(r.path), "value": getattr(r, "path_value", None)}, pa, pb)
+    summ = lambda r, m: None if r is None else {"path": list(r.path), "value": getattr(r, "path_value", None)}
+    check_reuse(ctx, "C05.reuse", make, lambda pl, m: pl.plan_on(m), summ, pa, pb)
+    # the public conversion entry point used explicitly, for both problems first: planning on the *earlier* converted problem
+    # (while a later conversion exists) must give what planning on the original gives
+    from msdm.core.mdp.deterministic_shortest_path import DeterministicShortestPathProblem
+    from vpm.checks.c13_scenarios import digest
+    da = ctx.call("C05.reuse.from_mdp_raises", DeterministicShortestPathProblem.from_mdp, pa)
+    db = ctx.call("C05.reuse.from_mdp_raises", DeterministicShortestPathProblem.from_mdp, pb)
+    for orig, conv, which in ((pa, da, "first"), (pb, db, "second")):
+        r1 = ctx.call("C05.reuse.plan_on_converted_raises", make().plan_on, conv)
+        r0 = ctx.call("C05.reuse.fresh_call_raises", make().plan_on, orig)
+        ctx.check(digest(summ(r1, conv)) == digest(summ(r0, orig)), "C05.reuse.converted_problem_changed_by_a_later_conversion",
+                  lambda: f"{which} problem: planning on its from_mdp() conversion {summ(r1, conv)} vs on the problem itself {summ(r0, orig)}")
     ctx.nontrivial(case["a"] != case["b"])
 
 
